@@ -219,6 +219,20 @@ MUL = z3.Function('MUL', R, R, R)
 DIV = z3.Function('DIV', R, R, R)
 
 
+# finite sum of a sequence: SIGMA(f, m) stands for f[0] + ... + f[m-1], f given as a lambda array. It is a NAME for the
+# finite sum (np.sum's assumed contract returns it, specs are written with it); two sums are equal when their summand
+# functions are (z3 decides equality of lambda arrays by extensionality) and their lengths are.
+SIGMA = z3.Function('SIGMA', z3.ArraySort(z3.IntSort(), z3.RealSort()), z3.IntSort(), z3.RealSort())
+
+
+def sigma(fn, m, name='ks'):
+    """SIGMA over k in [0, m) of fn(k) (fn builds a real-valued term from a z3 Int)"""
+    k = z3.Int('%s!sig%d' % (name, next(_cnt)))
+    t = fn(k)
+    t = split(t)[0] if not is_z3(t) or not z3.is_expr(t) else t
+    return SIGMA(z3.Lambda([k], toR(t)), toI(m))
+
+
 def _is_num(t):
     return z3.is_rational_value(t) or z3.is_int_value(t) or z3.is_algebraic_value(t)
 
